@@ -88,7 +88,7 @@ void SbmlPrinter::bvisit(const Xor &x)
 void SbmlPrinter::bvisit(const Not &x)
 {
     std::ostringstream s;
-    s << "not(" << *x.get_arg() << ")";
+    s << "not(" << apply(*x.get_arg()) << ")";
     str_ = s.str();
 }
 
